@@ -288,6 +288,14 @@ fn expect_convert(spec: &RunSpec, c: &Convert, w: &World) -> Expect {
     let mut outputs = BTreeMap::new();
     let mut stdout = None;
     match &c.out {
+        // special files: the document goes to a sink or to the standard output
+        // stream itself (verbatim); nothing appears in the directory
+        Some(o) if o == "/dev/null" => {}
+        Some(o) if o == "/dev/stdout" => {
+            if let Some(d) = &doc {
+                stdout = Some(d.clone().into_bytes());
+            }
+        }
         Some(o) => {
             let n = norm(o);
             if w.dirs.contains(&n) || n.is_empty() {
